@@ -62,6 +62,51 @@ class Seg:
         return "Seg(%s,%s,%s)" % (base, getattr(self.off, "t", self.off), getattr(self.n, "t", self.n))
 
 
+class IntSeg(Seg):
+    """the `width`-byte encoding of an integer term (unsigned, given byte order), kept abstract: two such segments are
+    equal iff the integers are.  Digits are only introduced (as fresh variables with one linear equation) when a single
+    byte or a partial window of the encoding is needed."""
+    __slots__ = ("v", "width", "order", "_arr")
+
+    def __init__(self, v, width, order):
+        self.v, self.width, self.order, self._arr = v, width, order, None
+        self.conc, self.off, self.n = None, 0, width
+
+    @property
+    def arr(self):
+        if self._arr is None:
+            e = ex()
+            ds = [z3.Int(e.fresh_name("dig")) for _ in range(self.width)]
+            for d in ds:
+                e.add(z3.And(d >= 0, d <= 255))
+            total = z3.Sum([d * (256 ** i) for i, d in enumerate(ds)]) if self.width > 1 else ds[0]
+            e.add(toz(self.v) == total)
+            if self.order == "big":
+                ds.reverse()
+            a = z3.Array(e.fresh_name("cells"), z3.IntSort(), z3.IntSort())
+            for i, d in enumerate(ds):
+                e.add(z3.Select(a, i) == d)
+            self._arr = a
+        return self._arr
+
+    @arr.setter
+    def arr(self, value):
+        self._arr = value
+
+    def plain(self):
+        """ordinary array segment over the digits"""
+        return Seg(self.arr, 0, self.width)
+
+    def same_base(self, o):
+        return o is self
+
+    def name(self):
+        return "int!" if self._arr is None else _b.str(self._arr)
+
+    def __repr__(self):
+        return "IntSeg(%s,%d,%s)" % (self.v, self.width, self.order)
+
+
 _CONC_ARRAYS: dict = {}
 
 
@@ -96,6 +141,9 @@ def norm(segs, solver=True):
     """drop empty segments, concretise bounds, merge adjacent windows of one base"""
     out = []
     for s in segs:
+        if isinstance(s, IntSeg):
+            out.append(s)
+            continue
         n = simp(s.n)
         if isinstance(n, int):
             if n == 0:
@@ -111,7 +159,7 @@ def norm(segs, solver=True):
         if solver and not isinstance(off, int):
             off = concretize(off)
         s = Seg(s.arr, off, n, s.conc)
-        if out:
+        if out and not isinstance(out[-1], IntSeg):
             p = out[-1]
             pm, sm = p.materialized(), s.materialized()
             if pm is not None and sm is not None:
@@ -124,6 +172,8 @@ def norm(segs, solver=True):
     if solver:
         # re-concretise after merging: sums of symbolic lengths are often unique again
         for i, s in enumerate(out):
+            if isinstance(s, IntSeg):
+                continue
             if not isinstance(s.n, int) or not isinstance(s.off, int):
                 n, off = concretize(s.n), concretize(s.off)
                 if n is not s.n or off is not s.off:
@@ -194,6 +244,17 @@ def rope_eq(a, b):
     ua = ub = 0
     while i < _b.len(A) and j < _b.len(B):
         x, y = A[i], B[j]
+        if (isinstance(x, IntSeg) or isinstance(y, IntSeg)) and ua == 0 and ub == 0:
+            r = _intseg_eq(x, y)
+            if r is not None:
+                conj.append(r)
+                i += 1
+                j += 1
+                continue
+        if isinstance(x, IntSeg):
+            x = A[i] = x.plain()
+        if isinstance(y, IntSeg):
+            y = B[j] = y.plain()
         ra, rb = simp(x.n - ua), simp(y.n - ub)
         take = ra if decide(ra <= rb) else rb
         if x.same_base(y):
@@ -243,6 +304,19 @@ def rope_eq(a, b):
     if z3.is_false(f):
         return False
     return SymBool(f)
+
+
+def _intseg_eq(x, y):
+    """equality of two whole segments when at least one is an abstract integer encoding; None = not applicable"""
+    if isinstance(x, IntSeg) and isinstance(y, IntSeg):
+        if x.width == y.width and x.order == y.order:
+            return x.v == y.v
+        return None
+    a, o = (x, y) if isinstance(x, IntSeg) else (y, x)
+    m = o.materialized()
+    if m is not None and _b.len(m) == a.width:
+        return a.v == _b.int.from_bytes(m, a.order)
+    return None
 
 
 def _cellwise(x, ua, y, ub, take, limit=None):
@@ -336,6 +410,12 @@ class SymBytes:
             bnd = stop if decide(stop < end) else end
             n = simp(bnd - a)
             rel = simp(a - pos)
+            if isinstance(s, IntSeg):
+                if isinstance(rel, int) and rel == 0 and isinstance(n, int) and n == s.width:
+                    out.append(s)
+                    pos = end
+                    continue
+                s = s.plain()
             out.append(Seg(s.arr, simp(s.off + rel), n, s.conc))
             pos = end
         return out
@@ -683,22 +763,11 @@ def int_to_rope(v, length, byteorder="big", signed=False):
         raise OverflowError("int too big to convert")
     if length == 0:
         return SymBytes([])
-    # little-endian digits as fresh variables: value == sum(d_i * 256^i), 0 <= d_i <= 255 (linear, unique)
-    e = ex()
-    ds = [z3.Int(e.fresh_name("dig")) for _ in range(length)]
-    for d in ds:
-        e.add(z3.And(d >= 0, d <= 255))
-    total = z3.Sum([d * (256 ** i) for i, d in enumerate(ds)]) if length > 1 else ds[0]
-    if signed:
-        e.add(z3.If(v.t >= 0, v.t, v.t + (1 << (8 * length))) == total)
-    else:
-        e.add(v.t == total)
-    cells = [SymInt(d) for d in ds]
-    if byteorder == "big":
-        cells.reverse()
-    elif byteorder != "little":
+    if byteorder not in ("big", "little"):
         raise ValueError("byteorder must be either 'little' or 'big'")
-    return SymBytes([cells_seg(cells)]) if length else SymBytes([])
+    if signed:
+        v = core.ite(v >= 0, v, v + (1 << (8 * length)))
+    return SymBytes([IntSeg(v, length, byteorder)])
 
 
 def rope_to_int(b, byteorder="big", signed=False):
@@ -707,6 +776,12 @@ def rope_to_int(b, byteorder="big", signed=False):
     n = concretize(b.length())
     if not isinstance(n, int):
         raise Unsupported("int.from_bytes of a rope with symbolic length")
+    segs = [s for s in b.segs if not (isinstance(s.n, int) and s.n == 0)]
+    if _b.len(segs) == 1 and isinstance(segs[0], IntSeg) and segs[0].order == byteorder:
+        v = segs[0].v
+        if signed:
+            v = core.ite(v >= (1 << (8 * n - 1)), v - (1 << (8 * n)), v)
+        return v
     cs = [b[i] for i in range(n)]
     if byteorder == "big":
         cs = cs[::-1]
